@@ -1,6 +1,7 @@
 package engine
 
 import (
+	"fmt"
 	"go/token"
 	"sort"
 	"strings"
@@ -472,4 +473,189 @@ func FieldStores(fns []*ssa.Function, ownerPat, field string) []*ssa.Store {
 		})...)
 	}
 	return out
+}
+
+// ---------------------------------------------------------------------------
+// Constant-propagating reachability: flags that are set to a constant and
+// tested at a later join are followed precisely (phi-of-constant folding),
+// which removes the classic path-insensitive false alarm
+//     modified = true; ...; if modified { return }; X
+
+// Env maps phis to the constant they are known to hold on the current path.
+type Env map[*ssa.Phi]*ssa.Const
+
+func (e Env) key() string {
+	if len(e) == 0 {
+		return ""
+	}
+	var ks []string
+	for p, c := range e {
+		ks = append(ks, p.Name()+"="+constText(c))
+	}
+	sort.Strings(ks)
+	return strings.Join(ks, ",")
+}
+
+func (e Env) clone() Env {
+	n := Env{}
+	for k, v := range e {
+		n[k] = v
+	}
+	return n
+}
+
+// ResolveConst resolves v to a constant under env (through phis known in env and boolean negation).
+func ResolveConst(v ssa.Value, env Env) (string, bool) {
+	switch x := v.(type) {
+	case *ssa.Const:
+		return constText(x), true
+	case *ssa.Phi:
+		if c, ok := env[x]; ok {
+			return constText(c), true
+		}
+	case *ssa.UnOp:
+		if x.Op == token.NOT {
+			if s, ok := ResolveConst(x.X, env); ok {
+				if s == "true" {
+					return "false", true
+				}
+				if s == "false" {
+					return "true", true
+				}
+			}
+		}
+	}
+	return "", false
+}
+
+// Reached describes a target instruction reached by WalkCP together with the
+// constants known on that path.
+type Reached struct {
+	Instr ssa.Instruction
+	Env   Env
+}
+
+// WalkCP explores all paths from `from`, folding branches on phis whose value on
+// the path is a known constant, stopping at cuts, and reports every target hit
+// (deduplicated per (instruction, env)). Paths do not continue past a target.
+func WalkCP(from Point, initEnv Env, target func(ssa.Instruction) bool, o ReachOpts) []Reached {
+	type state struct {
+		b   *ssa.BasicBlock
+		idx int
+		env Env
+	}
+	var out []Reached
+	seen := map[string]bool{}
+	seenOut := map[string]bool{}
+	if initEnv == nil {
+		initEnv = Env{}
+	}
+	work := []state{{from.Block, from.Idx, initEnv}}
+	for len(work) > 0 {
+		st := work[len(work)-1]
+		work = work[:len(work)-1]
+		stopped := false
+		for i := st.idx; i < len(st.b.Instrs); i++ {
+			in := st.b.Instrs[i]
+			if target(in) {
+				k := fmt.Sprintf("%p|%s", in, st.env.key())
+				if !seenOut[k] {
+					seenOut[k] = true
+					out = append(out, Reached{in, st.env})
+				}
+				stopped = true
+				break
+			}
+			if o.CutInstr != nil && o.CutInstr(in) {
+				stopped = true
+				break
+			}
+		}
+		if stopped {
+			continue
+		}
+		// branch folding
+		follow := []int{}
+		for k := range st.b.Succs {
+			follow = append(follow, k)
+		}
+		if len(st.b.Instrs) > 0 {
+			if ifi, ok := st.b.Instrs[len(st.b.Instrs)-1].(*ssa.If); ok && len(st.b.Succs) == 2 {
+				if s, ok := ResolveConst(ifi.Cond, st.env); ok {
+					if s == "true" {
+						follow = []int{0}
+					} else if s == "false" {
+						follow = []int{1}
+					}
+				}
+			}
+		}
+		for _, k := range follow {
+			if o.CutEdge != nil && o.CutEdge(st.b, k) {
+				continue
+			}
+			succ := st.b.Succs[k]
+			// which predecessor index are we?
+			env := st.env.clone()
+			newVals := map[*ssa.Phi]*ssa.Const{}
+			var phis []*ssa.Phi
+			for _, in := range succ.Instrs {
+				ph, ok := in.(*ssa.Phi)
+				if !ok {
+					break
+				}
+				phis = append(phis, ph)
+				for pi, pred := range succ.Preds {
+					if pred != st.b {
+						continue
+					}
+					// if the same pred occurs twice (both branches to same block) edges are identical
+					switch e := ph.Edges[pi].(type) {
+					case *ssa.Const:
+						newVals[ph] = e
+					case *ssa.Phi:
+						if c, ok := st.env[e]; ok {
+							newVals[ph] = c
+						}
+					}
+					break
+				}
+			}
+			for _, ph := range phis {
+				if c, ok := newVals[ph]; ok {
+					env[ph] = c
+				} else {
+					delete(env, ph)
+				}
+			}
+			key := fmt.Sprintf("%d|%s", succ.Index, env.key())
+			if !seen[key] {
+				seen[key] = true
+				work = append(work, state{succ, 0, env})
+			}
+		}
+	}
+	return out
+}
+
+// CanReachCP is CanReach with constant-flag folding.
+func CanReachCP(from Point, target func(ssa.Instruction) bool, o ReachOpts) (bool, ssa.Instruction) {
+	r := WalkCP(from, nil, target, o)
+	if len(r) > 0 {
+		return true, r[0].Instr
+	}
+	return false, nil
+}
+
+// OnlyViaCP is OnlyVia with constant-flag folding.
+func OnlyViaCP(from Point, target func(ssa.Instruction) bool, needs ...FactM) (bool, []int) {
+	var bypass []int
+	for i, n := range needs {
+		n := n
+		reach, _ := CanReachCP(from, target, ReachOpts{CutEdge: func(b *ssa.BasicBlock, k int) bool { return EdgeFactMatches(b, k, n) }})
+		if reach {
+			bypass = append(bypass, i)
+		}
+	}
+	return len(bypass) == 0, bypass
 }
